@@ -1,6 +1,7 @@
 #!/usr/bin/env python3
 """Re-run, for every seeded change under /verif/seeded, the quick check of its
-own property against a scratch worktree carrying the change, and update
+own property against a scratch worktree carrying the change (stopping at the
+first confirmed violation: XV_FAILFAST), and update
 meta.json (`recheck`).  Usage: tools/recheck_seeds.py [id-prefix ...]"""
 import os, sys, json, glob, subprocess, time
 VERIF = os.path.dirname(os.path.dirname(os.path.abspath(__file__)))
@@ -38,7 +39,8 @@ def main():
         cb = m.get("caught_by") or []
         chk = m["property"] if (not cb or m["property"] in cb) else cb[0]
         r = sh(["/venv/bin/python", "-m", "xv", "check", chk, "--tier", "quick"],
-               cwd=VERIF, env=dict(os.environ, XV_REPO=WT), timeout=3600)
+               cwd=VERIF, env=dict(os.environ, XV_REPO=WT, XV_FAILFAST="1"),
+               timeout=3600)
         first = [l[:200] for l in r.stdout.split("\n") if l.startswith("# ")][:1]
         m["recheck"] = {"head": head, "check": chk, "exit": r.returncode,
                         "first": first, "wall_s": round(time.time() - t0, 1)}
